@@ -332,6 +332,84 @@ func main() {
 		}
 	})
 
+	// Leg 4b: values written WITHOUT a prefix length (bare literals) through the pipeline: a bare literal is a host
+	// route (v4 => /32, i.e. the v4-mapped /128; v6 => /128; a v4-mapped literal in either spelling is that v4 host).
+	// The reference is computed from the literal text, never from the parsed prefix.
+	bare := []string{"10.1.2.3", "2001:db8::1", "::ffff:10.1.2.3", "::ffff:a01:203", "255.255.255.255", "::", "0.0.0.0", "::1"}
+	var bareSets [][]string
+	subsets(len(bare), 2, func(idx []int) {
+		var s []string
+		for _, i := range idx {
+			s = append(s, bare[i])
+		}
+		bareSets = append(bareSets, s)
+	})
+	// mixed with an explicit prefix
+	for _, b := range bare {
+		bareSets = append(bareSets, []string{b, "10.1.3.0/24"}, []string{"2001:db8:0:1::/64", b})
+	}
+	hostOf := func(lit string) netip.Prefix {
+		if strings.Contains(lit, "/") {
+			return netip.MustParsePrefix(lit)
+		}
+		a := netip.MustParseAddr(lit)
+		return netip.PrefixFrom(netip.AddrFrom16(a.As16()), 128) // the address itself, in 16-byte form
+	}
+	r.ParallelFor(len(bareSets), func(i int) {
+		ss := bareSets[i]
+		for _, fn := range []string{"dip", "sip"} {
+			text := confText(fmt.Sprintf("%s(%s) -> g1", fn, quoteAll(ss)))
+			var v *control.VerifRouting
+			var err error
+			if p, msg := vlib.Try(func() {
+				v, err = control.VerifCompileRouting(text, []string{"g1", "g2"}, []routing.RulesOptimizer{&routing.AliasOptimizer{}})
+			}); p {
+				r.Violation(fmt.Sprintf("leg=bare-build panic %s=%v", fn, ss), msg)
+				return
+			}
+			if err != nil {
+				r.Violation(fmt.Sprintf("leg=bare-build error %s=%v", fn, ss), err.Error())
+				return
+			}
+			var set []netip.Prefix
+			for _, lit := range ss {
+				set = append(set, hostOf(lit))
+			}
+			nviol := 0
+			probes := probesFor(set)
+			for _, lit := range []string{"10.1.2.4", "8.8.8.8", "::ffff:10.1.2.2"} {
+				probes = append(probes, netip.MustParseAddr(lit).As16())
+			}
+			for _, pr := range probes {
+				for _, form := range addrForms(pr) {
+					evals.Add(1)
+					want := uint8(consts.OutboundDirect)
+					if refContains(set, pr) {
+						want = uint8(consts.OutboundUserDefinedMin)
+						posHits.Add(1)
+					}
+					r.Distinct(fmt.Sprintf("bare|%s|%v|%x", fn, ss, pr))
+					var s, d netip.AddrPort
+					other := netip.MustParseAddr("198.51.100.200")
+					if form.Is6() && !form.Is4In6() {
+						other = netip.MustParseAddr("2001:db9::200")
+					}
+					if fn == "dip" {
+						s, d = netip.AddrPortFrom(other, 40000), netip.AddrPortFrom(form, 443)
+					} else {
+						s, d = netip.AddrPortFrom(form, 40000), netip.AddrPortFrom(other, 443)
+					}
+					ob, _, _, rerr := v.Route(s, d, "", consts.L4ProtoType_TCP, [16]uint8{}, [6]uint8{}, 0)
+					if (rerr != nil || ob != want) && nviol < 3 {
+						nviol++
+						r.Violation(fmt.Sprintf("leg=bare %s=%v probe=%v want=%d got=%d err=%v", fn, ss, form, want, ob, rerr), text)
+					}
+				}
+			}
+		}
+	})
+	r.Set("bare_literal_sets", len(bareSets))
+
 	// Leg 5: MAC sets (exact match) through the pipeline
 	macs := []string{"00:00:00:00:00:01", "02:42:ac:11:00:02", "ff:ff:ff:ff:ff:ff", "02:42:ac:11:00:03"}
 	var macSets [][]string
